@@ -91,15 +91,16 @@ Example C30_witness_verify_hypotheses :
   is_sha_crypt (KSha1 (sha1 (str "password"))) = false.
 Proof. vm_compute. repeat split; reflexivity. Qed.
 
-(* sha-crypt's decode_sha256(..).unwrap(): a {crypt}$5$ string with valid structure and rounds but
-   an undecodable hash field makes verify PANIC (known class sha256-crypt-panic; confirmed on the
-   real code by the harness cases `crypt-sha256-bad-hash-field`); the $6$ twin returns false *)
-Example C30_witness_sha256_crypt_panics :
-  ok "{crypt}$5$rounds=1000$saltsalt$***" "password" = OVer VPanic /\
-  ok "{crypt}$5$saltsalt$aaaaaaaaaaaaaaaaaaaaaaaaaaaaaaaaaaaaaaaaaaz" "password" = OVer VPanic /\
+(* after /repo a666989 a {crypt}$5$ string with an undecodable / non-canonical / over-long hash
+   field is answered Ok(false) (before: PANIC, see C30_prefix_sha256_crypt_panics); non-vacuity of
+   C30_fix_same_on_canonical: a glibc hash has a canonical field *)
+Example C30_witness_sha256_crypt_no_panic :
+  ok "{crypt}$5$rounds=1000$saltsalt$***" "password" = OVer (VOk false) /\
+  ok "{crypt}$5$saltsalt$aaaaaaaaaaaaaaaaaaaaaaaaaaaaaaaaaaaaaaaaaaz" "password" = OVer (VOk false) /\
   ok "{crypt}$6$rounds=1000$saltsalt$***" "password" = OVer (VOk false) /\
-  known (Case None (SStr (str "{crypt}$5$rounds=1000$saltsalt$***")) [] [(str "password", OVer VPanic)]) = true /\
-  known (Case None (SStr (str "{crypt}$6$rounds=1000$saltsalt$***")) [] [(str "password", OVer (VOk false))]) = false.
+  sha_check_gen false false (str "password") (str "$5$saltsalt$aaaaaaaaaaaaaaaaaaaaaaaaaaaaaaaaaaaaaaaaaaz") = VPanic /\
+  sha256_field_ok (str "$5$rounds=1000$saltsalt$eNI.02a9Kos9UxzxjTLpNZ6kYHkRe9Z8OsGkDDoW/X2") = true /\
+  sha256_field_ok (str "$5$rounds=1000$saltsalt$***") = false.
 Proof. vm_compute. repeat split; reflexivity. Qed.
 
 (* Leniency outside the property's domain (no independent implementation writes such strings):
